@@ -392,8 +392,9 @@ class Parser:
         return N("enum", name=name, variants=variants, attrs=attrs)
 
     def const_item(self, attrs):
+        is_static = self.t.text == "static"
         self.i += 1   # const / static
-        self.accept("mut")
+        is_mut = bool(self.accept("mut"))
         name = self.ident() if not self.at("_") else (self.expect("_") or "_")
         ty = None
         if self.accept(":"):
@@ -402,7 +403,7 @@ class Parser:
         if self.accept("="):
             val = self.expr()
         self.expect(";")
-        return N("const", name=name, ty=ty, val=val, attrs=attrs)
+        return N("const", name=name, ty=ty, val=val, attrs=attrs, static=is_static, mut=is_mut)
 
     # -- types -------------------------------------------------------------
     def parse_type(self):
